@@ -129,16 +129,57 @@ fn repeating_planes(w: usize, h: usize, src: &mut dyn FnMut() -> u8) -> (Vec<u8>
     (y, cb, cr)
 }
 
+/// Family 5: uniform planes with a few deviating samples. Every plane is flat (mid-grey chroma and
+/// black / white / mid luma are favoured) except for one to three samples, which sit in the last
+/// or first column / row of the plane more often than not. A conversion that classifies a row, a
+/// band or the whole picture as "uniform" by looking at part of it gets these wrong.
+fn sparse_planes(w: usize, h: usize, src: &mut dyn FnMut() -> u8) -> (Vec<u8>, Vec<u8>, Vec<u8>) {
+    let cw = (w + 1) / 2;
+    let ch = (h + 1) / 2;
+    let mut plane = |pw: usize, ph: usize, favourite: u8, src: &mut dyn FnMut() -> u8| -> Vec<u8> {
+        let base = match src() % 4 {
+            0 | 1 => favourite,
+            2 => [0u8, 16, 235, 255][src() as usize % 4],
+            _ => src(),
+        };
+        let mut p = vec![base; pw * ph];
+        if pw * ph == 0 {
+            return p;
+        }
+        let n = src() % 4; // 0..3 deviating samples
+        for _ in 0..n {
+            let x = match src() % 4 {
+                0 | 1 => pw - 1,
+                2 => 0,
+                _ => src() as usize * 251 % pw,
+            };
+            let y = match src() % 4 {
+                0 => ph - 1,
+                1 => 0,
+                _ => src() as usize * 241 % ph,
+            };
+            let v = src();
+            p[x + y * pw] = if v == base { base.wrapping_add(37) } else { v };
+        }
+        p
+    };
+    let y = plane(w, h, 16, src);
+    let cb = plane(cw, ch, 128, src);
+    let cr = plane(cw, ch, 128, src);
+    (y, cb, cr)
+}
+
 /// Plane content families. 0: random bytes; 1: extremes; 2: per-position-unique pattern so a
 /// shifted / mirrored / interpolated sample is always visible; 3: every plane gets its own
 /// independently chosen structured style (flat / repeated rows / repeated columns / ... ), e.g.
 /// flat luma over varying chroma. 4: see `repeating_planes`.
-pub const FAMILIES: u32 = 5;
+pub const FAMILIES: u32 = 6;
 pub fn planes(w: usize, h: usize, family: u32, src: &mut dyn FnMut() -> u8) -> (Vec<u8>, Vec<u8>, Vec<u8>) {
     let cw = (w + 1) / 2;
     let ch = (h + 1) / 2;
     match family {
         4 => repeating_planes(w, h, src),
+        5 => sparse_planes(w, h, src),
         0 | 1 | 2 => (fill_plane(w, h, family, 0, src), fill_plane(cw, ch, family, 1, src), fill_plane(cw, ch, family, 2, src)),
         _ => {
             let sy = [3u32, 4, 5, 6, 7, 3, 6, 0][(src() % 8) as usize];
@@ -228,7 +269,7 @@ fn grid_item(ctx_seed: u64, wmax: u64, i: u64, acc: &mut Acc) {
         acc.label_n(l, FAMILIES as u64);
     }
     if w == 7 && h == 3 {
-        acc.sample(|| json!({"w": w, "h": h, "families": ["hash bytes", "extremes", "position-unique", "structured planes", "repeating rows / groups / notable values"]}));
+        acc.sample(|| json!({"w": w, "h": h, "families": ["hash bytes", "extremes", "position-unique", "structured planes", "repeating rows / groups / notable values", "uniform planes with a few deviating samples"]}));
     }
 }
 
@@ -236,7 +277,7 @@ fn random_case(g: &mut Gen, wmax: i64, hmax: i64) -> Verdict {
     let w = if g.chance(1, 4) { g.range(1, 12) } else { g.range(1, wmax) } as usize;
     let h = if g.chance(1, 4) { g.range(1, 6) } else { g.range(1, hmax) } as usize;
     // keep the tape usage bounded: larger pictures use the pattern families more often
-    let family = if w * h > 1500 { *g.pick(&[2u32, 3, 4]) } else { g.below(FAMILIES) };
+    let family = if w * h > 1500 { *g.pick(&[2u32, 3, 4, 5]) } else { g.below(FAMILIES) };
     let offs = (g.below(4) as usize, g.below(4) as usize, g.below(4) as usize);
     let mut src = || g.byte();
     let (y, cb, cr) = planes(w, h, family, &mut src);
@@ -280,7 +321,7 @@ fn extreme_item(seed: u64, i: u64, acc: &mut Acc) {
     let small = ((i / 30) % 5 + 1) as usize;
     let wide = (i / 150) % 2 == 0;
     let (w, h) = if wide { (big, small) } else { (small, big) };
-    for family in [2u32, 3, 4] {
+    for family in [2u32, 3, 4, 5] {
         let bytes = super::content_bytes(seed ^ ((w as u64) << 24) ^ ((h as u64) << 4) ^ family as u64, 4096);
         let mut k = 0;
         let mut src = || {
@@ -294,9 +335,43 @@ fn extreme_item(seed: u64, i: u64, acc: &mut Acc) {
         }
         acc.count(true);
     }
-    acc.label_n(if wide { "very wide" } else { "very tall" }, 3);
+    acc.label_n(if wide { "very wide" } else { "very tall" }, 4);
     if i == 7 {
         acc.sample(|| json!({"w": w, "h": h, "families": ["position-unique", "structured"]}));
+    }
+}
+
+/// Pictures of common video sizes and of large area (up to 2 Mpixel in the quick tier): anything
+/// that depends on the total number of samples, or on rows per band / per task, shows here.
+const LARGE_AREA: [(usize, usize); 22] = [
+    (640, 480), (800, 600), (720, 576), (1280, 720), (1024, 768), (513, 512), (511, 513), (1023, 257), (333, 1000), (3, 90000), (90001, 3), (1366, 768), (854, 480), (1920, 1080), (352, 288), (704, 576), (1408, 1152),
+    (2047, 129), (129, 2047), (4099, 65), (65, 4099), (1000, 1001),
+];
+
+fn large_area_item(seed: u64, i: u64, acc: &mut Acc) {
+    let (w, h) = LARGE_AREA[i as usize % LARGE_AREA.len()];
+    for family in [2u32, 5] {
+        let bytes = super::content_bytes(seed ^ ((w as u64) << 24) ^ ((h as u64) << 4) ^ family as u64, 8192);
+        let mut k = 0;
+        let mut src = || {
+            k += 1;
+            bytes[(k - 1) % bytes.len()]
+        };
+        let (y, cb, cr) = planes(w, h, family, &mut src);
+        if let Err(m) = check_picture_at(w, &y, &cb, &cr, (i as usize % 4, (i as usize / 4) % 4, (i as usize / 2) % 4)) {
+            acc.fail(json!({"kind":"params","large_area":i,"family":family}), m);
+            return;
+        }
+        acc.count(true);
+    }
+    if w * h > (1 << 18) {
+        acc.label_n("more than 2^18 pixels", 2);
+    }
+    if w * h > (1 << 20) {
+        acc.label_n("more than 2^20 pixels", 2);
+    }
+    if i == 0 {
+        acc.sample(|| json!({"sizes": format!("{:?}", LARGE_AREA), "families": ["position-unique", "uniform with deviating samples"]}));
     }
 }
 
@@ -306,16 +381,17 @@ pub fn run(ctx: &Ctx) -> i32 {
     let mut reports = vec![super::regression_suite(ctx), empty_suite()];
     reports.push(exhaustive_suite(ctx, "size_grid", wmax * hmax, &move |i, acc| grid_item(seed, wmax, i, acc)));
     reports.push(exhaustive_suite(ctx, "extreme_aspect", 300, &move |i, acc| extreme_item(seed, i, acc)));
+    reports.push(exhaustive_suite(ctx, "large_area", LARGE_AREA.len() as u64, &move |i, acc| large_area_item(seed, i, acc)));
     let (cases, rw, rh) = ctx.tier.pick((100_000u64, 300i64, 120i64), (1_500_000u64, 700i64, 300i64));
     reports.push(tape_suite(ctx, "random_sizes", cases, 1600, &move |g| random_case(g, rw, rh)));
     let mut extra = Map::new();
-    extra.insert("grid".into(), json!(format!("every (w,h) in 1..={} x 1..={} x 5 content families", wmax, hmax)));
+    extra.insert("grid".into(), json!(format!("every (w,h) in 1..={} x 1..={} x 6 content families", wmax, hmax)));
     let exhaustive = false; // the property quantifies over all sizes; only the stated box is complete
     finish(
         ctx,
         reports,
         Summary {
-            rule: "size_grid enumerates every width x height in the stated box with five plane-content families (hash bytes, extremes, per-position-unique pattern, independently structured planes, and planes assembled from a few repeated row templates over one-to-three-value alphabets so that equal neighbouring groups / rows / planes and special values occur all the time); random_sizes draws size and content from the proptest tape. Oracle: per-pixel BT.601 integer model of luma (x,y) with chroma (x/2,y/2), output length 4wh, no panic; empty picture -> empty output. Non-trivial = width not a multiple of 4, or odd height, or width >= 8; distinct by plane contents.",
+            rule: "size_grid enumerates every width x height in the stated box with six plane-content families (uniform planes with one to three deviating samples, mostly in the last or first column / row; hash bytes, extremes, per-position-unique pattern, independently structured planes, and planes assembled from a few repeated row templates over one-to-three-value alphabets so that equal neighbouring groups / rows / planes and special values occur all the time); random_sizes draws size and content from the proptest tape. Oracle: per-pixel BT.601 integer model of luma (x,y) with chroma (x/2,y/2), output length 4wh, no panic; empty picture -> empty output. Non-trivial = width not a multiple of 4, or odd height, or width >= 8; distinct by plane contents.",
             assumptions: vec!["planes have the documented sizes (chroma ceil(w/2) x ceil(h/2)); other shapes are outside the property".into()],
             exhaustive,
             extra,
@@ -348,6 +424,14 @@ pub fn replay(suite: &str, case: &Value) -> Option<Verdict> {
             Some(match check_picture_at(w, &y, &cb, &cr, offs) {
                 Ok(()) => Verdict::pass(true, 0),
                 Err(m) => Verdict::fail(m),
+            })
+        }
+        "large_area" => {
+            let mut acc = Acc::default();
+            large_area_item(case["seed"].as_u64().unwrap_or(1), case["large_area"].as_u64()?, &mut acc);
+            Some(match acc.failure {
+                Some((_, _, m, _)) => Verdict::fail(m),
+                None => Verdict::pass(true, 0),
             })
         }
         "extreme_aspect" => {
